@@ -80,6 +80,18 @@ def respond (line : String) : String :=
       | .error e => s!"err {showLoadErr e}"
       | .ok c => "ok" ++ String.join (qs.map (fun k => match c.get k with | some r => " " ++ showRat r | none => " -"))
     | _, _, _ => "bad-request"
+  | ["parse", valid, hex] =>
+    match unhex6 hex.toList with
+    | none => "bad-request"
+    | some text =>
+      let codes := if valid = "-" then [] else valid.splitOn ";"
+      match Dsl.parse codes text with
+      | .error e => showParseErr e
+      | .ok ts => s!"ok {ts.length}" ++ String.join (ts.map (fun t => " " ++ showDTx t))
+  | "write" :: txs =>
+    match parseAll parseDTx? (txs.filter (· ≠ "")) with
+    | none => "bad-request"
+    | some ts => "ok " ++ hex6 (Dsl.write ts)
   | "spec" :: txs =>
     match parseAll parseTx? (txs.filter (· ≠ "")) with
     | none => "bad-request"
